@@ -69,6 +69,7 @@ class Env:
         self.aux = []         # auxiliary loop defs (text)
         self.tmp = 0
         self.nloops = 0
+        self.aliases = set()       # locals that alias the state object (`let reader = input.reader();`)
         self.extra = set(re.findall(r"\((\w+)\s*:", getattr(unit, "extra_binders", {}).get(fn.name, "") or ""))
 
     def fresh(self, base="t"):
@@ -85,6 +86,7 @@ class Env:
         e.aux = self.aux
         e.tmp_owner = self
         e.extra = self.extra
+        e.aliases = self.aliases
         return e
 
 
@@ -129,7 +131,7 @@ class Emitter:
     def is_state(self, e, env):
         """Does `e` denote the unit's state object (self / reader / input.reader / input.reader())?"""
         e = strip_ref(e)
-        if e[0] == "path" and len(e[1]) == 1 and e[1][0] in self.u.state_vars:
+        if e[0] == "path" and len(e[1]) == 1 and (e[1][0] in self.u.state_vars or e[1][0] in getattr(env, "aliases", ())):
             return True
         if e[0] == "field" and self.is_state(e[1], env) and e[2] in self.u.state_subobjects:
             return True
@@ -364,7 +366,11 @@ class Emitter:
             if t in ("u64", "u32"):
                 return Code(f"({ca.val} {'<<<' if op == '<<' else '>>>'} {amt})", t, ca.pre)
             if t == "usize" and op == "<<":
+                if getattr(self.u, "wrapping_usize_shl", False):
+                    return Code(f"(({ca.val} * 2 ^ {amt}) % 2 ^ 64)", t, ca.pre)   # bits shifted out are lost
                 return Code(f"({ca.val} * 2 ^ {amt})", t, ca.pre)
+            if t == "usize" and op == ">>":
+                return Code(f"({ca.val} / 2 ^ {amt})", t, ca.pre)
             raise TErr(f"{self.u.name}::{env.fn.name}: shift on type {t}")
         t = ta or tb or (hint if op not in ("==", "!=", "<", ">", "<=", ">=") else None)
         ca = self.cexpr(a, env, t)
@@ -390,12 +396,16 @@ class Emitter:
                 return Code(tmp, "usize", pre + [f"let {tmp} ← {self.u.usub} {paren(ca.val)} {paren(cb.val)}"])
             if op == "&" and t == "usize":
                 return Code(f"({ca.val} &&& {cb.val})", "usize", pre)
+            if op == "|" and t == "usize":
+                return Code(f"({ca.val} ||| {cb.val})", "usize", pre)
         if t in ("u64", "u32"):
             m = {"&": "&&&", "|": "|||", "^": "^^^", "+": "+", "-": "-", "*": "*", "/": "/"}
             if op in m:
                 return Code(f"({ca.val} {m[op]} {cb.val})", t, pre)
         if t == "u8" and op == "-":
             return Code(f"({ca.val} - {cb.val})", "u8", pre)
+        if t == "u8" and op in ("&", "|"):
+            return Code(f"({ca.val} {'&&&' if op == '&' else '|||'} {cb.val})", "u8", pre)
         if t == "bool" and op in ("|", "&"):
             return Code(f"({ca.val} {'||' if op == '|' else '&&'} {cb.val})", "bool", pre)
         raise TErr(f"{self.u.name}::{env.fn.name}: operator `{op}` on type {t}")
@@ -837,6 +847,11 @@ class Emitter:
             if init is None:
                 raise TErr("let without initialiser")
             hint = norm_ty(ann) if ann else None
+            if pat[0] == "pbind" and self.is_state(init, env):
+                env.aliases.add(pat[1])          # an alias of the state object: no Lean value
+                return []
+            if init[0] == "lit" and hint is None and getattr(self.u, "int_literal_default", None):
+                hint = self.u.int_literal_default
             if init[0] == "block":
                 # `let x = { stmts; tail }` / `unsafe { .. }`: the statements run in place
                 pre_lines = self.cstmts(init[1], env)
@@ -1121,10 +1136,18 @@ class Emitter:
         pat, it, body = e[1], strip_ref(e[2]), e[3]
         ok = (it[0] == "mcall" and it[2] == "enumerate" and it[1][0] == "mcall" and it[1][2] == "iter"
               and pat[0] == "ptuple" and len(pat[1]) == 2)
-        if not ok:
-            raise TErr(f"{self.u.name}::{env.fn.name}: only `for (i, &x) in xs.iter().enumerate()` is translated")
-        xs = self.cexpr(it[1][1], env)
-        ip, xp = pat[1][0], pat[1][1]
+        plain = it[0] == "mcall" and it[2] == "iter" and not it[3]
+        rev = it[0] == "mcall" and it[2] == "rev" and it[1][0] == "mcall" and it[1][2] == "iter"
+        if not (ok or plain or rev):
+            raise TErr(f"{self.u.name}::{env.fn.name}: only `for (i, &x) in xs.iter().enumerate()`, `for x in xs.iter()` and `for x in xs.iter().rev()` are translated")
+        if ok:
+            xs = self.cexpr(it[1][1], env)
+            ip, xp = pat[1][0], pat[1][1]
+        else:
+            xs = self.cexpr(it[1] if plain else it[1][1], env)
+            if rev:
+                xs = Code(f"({xs.val}).reverse", xs.ty, xs.pre)
+            ip, xp = ("pbind", env.fresh("i"), False, False, None), pat
         while xp[0] == "pref":
             xp = xp[1]
         if ip[0] != "pbind" or xp[0] != "pbind":
